@@ -104,7 +104,9 @@ def try_setting(case, ctx, d):
             path, src = tiny_3d_segy(ctx.work)
             conv.segy_convert(path, out, bpv, bs_given, header_detection="strip")
         else:
-            src = gen.make_values((5, 6, 9), "gauss", 6)
+            # (a fifth of the settings with thin blocks get traces of more than 256 blocks: 256 * blockshape[2] + 5 samples)
+            ns = 256 * int(resolved[1][2]) + 5 if (case.get("tall") and resolved is not None and 0 < int(resolved[1][2]) <= 16) else 9
+            src = gen.make_values((5, 6, ns), "gauss", 6)
             conv.numpy_convert(src, out, bpv, bs_given)
     except Exception as e:
         if sentinel is not None:
@@ -133,6 +135,17 @@ def try_setting(case, ctx, d):
         raise Violation("accepted-setting-unreadable-file", f"bpv={bpv!r} blockshape={bs} -> {rate}, {rbs}: {type(e).__name__}: {e}")
     if not codec.bits_equal(got, want):
         raise Violation("accepted-setting-wrong-data", f"bpv={bpv!r} blockshape={bs} -> {rate}, {rbs}: {codec.first_diff(got, want)}")
+    if not two_d:
+        # the other ways of reading the accepted file: a z-slice near the top and one at the end, the last inline, a crossline
+        try:
+            with SgzReader(out) as r:
+                parts = [("read_zslice(1)", r.read_zslice(1), want[:, :, 1]), (f"read_zslice({want.shape[2] - 1})", r.read_zslice(want.shape[2] - 1), want[:, :, -1]),
+                         (f"read_inline({want.shape[0] - 1})", r.read_inline(want.shape[0] - 1), want[-1]), ("read_crossline(1)", r.read_crossline(1), want[:, 1])]
+        except Exception as e:
+            raise Violation("accepted-setting-unreadable-file", f"bpv={bpv!r} blockshape={bs} -> {rate}, {rbs}: {type(e).__name__}: {e}")
+        for what, g, w in parts:
+            if g.shape != w.shape or not codec.bits_equal(np.asarray(g, dtype=np.float32), np.ascontiguousarray(w)):
+                raise Violation("accepted-setting-wrong-data", f"bpv={bpv!r} blockshape={bs} -> {rate}, {rbs}: {what} differs from the codec image")
     v = spec.SgzSpec(raw).volume()
     if not codec.bits_equal(v, want):
         raise Violation("accepted-setting-wrong-data", f"spec decode: bpv={bpv!r} blockshape={bs}")
@@ -223,7 +236,7 @@ def shard_main(ctx):
     for rate, bs in gen.SETTINGS_3D:
         for r, b in spellings(rate, bs):
             items.append({"check": "valid", "bpv": r, "bs": list(b), "two_d": False, "route": "numpy", "must_accept": True,
-                          "bs_form": forms[len(items) % len(forms)]})
+                          "bs_form": forms[len(items) % len(forms)], "tall": len(items) % 5 == 0})
     for rate, bs in gen.SETTINGS_2D:
         for r, b in spellings(rate, bs):
             items.append({"check": "valid", "bpv": r, "bs": list(b), "two_d": True, "route": "segy", "must_accept": True,
